@@ -16,13 +16,17 @@
 EXTENDS CliOps
 CONSTANTS MaxSteps,   \* commands per behaviour
           Pre,        \* which of cnv_reference.cnn, cnv_reference.cnn.1, .2 exist before the session ({0,1,2} subset)
-          OnlyCmds    \* restrict the exploration to these commands ({} = all)
-VARIABLES fs, meta, nid, hist, pfs, pmeta, last
-vars == <<fs, meta, nid, hist, pfs, pmeta, last>>
+          OnlyCmds,   \* restrict the exploration to these commands ({} = all)
+          Ablation    \* FALSE: the variants of the menu; TRUE: their one-flag-removed copies (abl = <<variant, flag index>>),
+                      \* from which the harness measures that every flag changes the library result in this world
+VARIABLES fs, meta, nid, hist, pfs, pmeta, last,
+          pend     \* the command line being composed: [st (0 none, 1 variant chosen, 2 inputs chosen), v, ins]
+vars == <<fs, meta, nid, hist, pfs, pmeta, last, pend>>
 
 PreN(k) == IF k = 0 THEN <<"cnv_reference", "cnn">> ELSE <<"cnv_reference", "cnn", ToString(k)>>
 PreFs == {<<JoinDots(PreN(k)), 900 + k>> : k \in Pre}
 PreMeta == {MkMeta("", PreN(k), "other", {}, "", "", <<>>) : k \in Pre}
+NoPend == [st |-> 0, v |-> 0, ins |-> <<<<>>, <<>>, <<>>>>]
 NoObs == [err |-> "", liberr |-> "", lib |-> <<>>, so |-> 0, post |-> {}, w |-> {}, n |-> {}]
 
 Init == /\ fs = WorldFs \cup PreFs
@@ -30,6 +34,7 @@ Init == /\ fs = WorldFs \cup PreFs
         /\ nid = 1000
         /\ hist = <<>>
         /\ pfs = {} /\ pmeta = {} /\ last = NoObs
+        /\ pend = NoPend
 
 Step(v, ins, osel, oname) ==
     LET e == MkEvent(v, ins, osel, oname, Len(hist) + 1)
@@ -43,32 +48,46 @@ Step(v, ins, osel, oname) ==
     /\ nid' = nid + 100
     /\ hist' = Append(hist, [v |-> v, cmd |-> e.cmd, tag |-> Variants[v].tag, ins |-> ins, osel |-> osel, oname |-> oname,
                              argv |-> Argv(e), lib |-> PLib(e), nlib |-> nl, experr |-> DocErr(e, meta)])
-    /\ pfs' = fs /\ pmeta' = meta
+    /\ pfs' = fs /\ pmeta' = meta /\ pend' = NoPend
     /\ last' = [err |-> x.err, liberr |-> "", lib |-> lib, so |-> x.so, post |-> post, w |-> x.w,
                 n |-> {<<m.name, m.d, m.n>> : m \in x.meta}]
 
-Next ==
-    /\ Len(hist) < MaxSteps
-    /\ \E v \in {u \in 1..Len(Variants) : OnlyCmds = {} \/ Variants[u].cmd \in OnlyCmds} : \E ins \in InChoices(v, meta) :
-          LET e0 == MkEvent(v, ins, "default", "", Len(hist) + 1) IN
-          /\ SyntaxOK(e0) /\ InsOK(e0, meta)
-          /\ \E osel \in SetOf(Variants[v].osels) :
-                IF osel = "clash" THEN \E nm \in ClashNames(e0, fs, meta) : Step(v, ins, "clash", nm)
-                ELSE Step(v, ins, osel, IF osel = "default" THEN "" ELSE ONameFor(e0.cmd, osel, Len(hist) + 1))
+(* A command line is composed in three choices (variant of the menu, input files per role, output  *)
+(* selector), then run.  The split keeps the branching small: `tlc -simulate` picks uniformly among *)
+(* the successors of a state, i.e. first a variant, then its inputs, then where the output goes.   *)
+ChooseVariant ==
+    /\ pend.st = 0 /\ Len(hist) < MaxSteps
+    /\ \E v \in {u \in 1..Len(Variants) : (OnlyCmds = {} \/ Variants[u].cmd \in OnlyCmds) /\ ((Variants[u].abl[1] # 0) = Ablation)} :
+          pend' = [st |-> 1, v |-> v, ins |-> <<<<>>, <<>>, <<>>>>]
+    /\ UNCHANGED <<fs, meta, nid, hist, pfs, pmeta, last>>
+ChooseInputs ==
+    /\ pend.st = 1
+    /\ \E ins \in InChoices(pend.v, meta) :
+          LET e0 == MkEvent(pend.v, ins, "default", "", Len(hist) + 1) IN
+          /\ SyntaxOK(e0) /\ InsOK(e0, meta)                   \* enabling condition: inputs of the right kind
+          /\ pend' = [st |-> 2, v |-> pend.v, ins |-> ins]
+    /\ UNCHANGED <<fs, meta, nid, hist, pfs, pmeta, last>>
+Run ==
+    /\ pend.st = 2
+    /\ LET e0 == MkEvent(pend.v, pend.ins, "default", "", Len(hist) + 1) IN
+       \E osel \in SetOf(Variants[pend.v].osels) :
+           IF osel = "clash" THEN \E nm \in ClashNames(e0, fs, meta) : Step(pend.v, pend.ins, "clash", nm)
+           ELSE Step(pend.v, pend.ins, osel, IF osel = "default" THEN "" ELSE ONameFor(e0.cmd, osel, Len(hist) + 1))
+Next == ChooseVariant \/ ChooseInputs \/ Run
 Spec == Init /\ [][Next]_vars
 
 LastEvent == LET h == hist[Len(hist)] IN MkEvent(h.v, h.ins, h.osel, h.oname, Len(hist))
 (* A |= P: what the wrappers do satisfies what is documented (modulo the listed defects) *)
-DesignOK == hist = <<>> \/
+DesignOK == hist = <<>> \/ pend.st # 0 \/
             \A c \in ClausesOf(LastEvent) :
                 \/ Holds(c, pfs, pmeta, LastEvent, last)
                 \/ \E t \in KnownTriggers : TriggerHolds(t, LastEvent, pmeta)
 (* the same without the exemption: its counterexamples are the listed defects seen in the model *)
-DesignStrict == hist = <<>> \/ \A c \in ClausesOf(LastEvent) : Holds(c, pfs, pmeta, LastEvent, last)
+DesignStrict == hist = <<>> \/ pend.st # 0 \/ \A c \in ClausesOf(LastEvent) : Holds(c, pfs, pmeta, LastEvent, last)
 (* session-level facts *)
 TypeOK == /\ \A x \in fs : \A y \in fs : x[1] = y[1] => x = y                   \* one content per name
           /\ \A m \in meta : Exists(fs, m.name)                                    \* bookkeeping only of files that exist
 ReferenceNeverLoses ==      \* k writes of `reference` to one path leave k more files (C10's NoOverwrite, at the command level)
-    (hist # <<>> /\ hist[Len(hist)].cmd = "reference" /\ last.err = "")
+    (hist # <<>> /\ pend.st = 0 /\ hist[Len(hist)].cmd = "reference" /\ last.err = "")
         => Cardinality(fs) = Cardinality(pfs) + Cardinality(last.w)
 =============================================================================
